@@ -475,7 +475,9 @@ func TestC11Requests(t *testing.T) {
 				if inDial {
 					h.ReleaseDial()
 				} else {
-					h.Current().Break(false)
+					if cur := h.Current(); cur != nil {
+						cur.Break(false)
+					}
 				}
 				h.MustPoll("ReadSlices returning the failed connect attempt", func() bool { return !h.App.InCall() })
 				for _, r := range m.reqs[before:] {
@@ -631,7 +633,8 @@ func TestC11KnownF07(t *testing.T) {
 			return
 		}
 		// the read routine notices the loss (releases A's slot) and reconnects
-		for i := 0; i < 4 && (h.Current() == nil || !h.Current().Accepted()); i++ {
+		online := func() bool { cur := h.Current(); return cur != nil && cur.Accepted() }
+		for i := 0; i < 4 && !online(); i++ {
 			h.appStep("reconnect")
 		}
 		if h.Current() == nil {
